@@ -52,35 +52,42 @@ func ruleV9(c *Ctx, id string) {
 				if cookie == nil {
 					continue
 				}
+				// only calls that lead to a directory scan (decoding entries) use the cookie as an offset
+				if dec := P.Func("dir.decodeDirEnt"); dec != nil {
+					if !P.Reach([]*ssa.Function{call.Call.StaticCallee()}, func(f *ssa.Function) bool { return !IsRepoFunc(f) })[dec] {
+						continue
+					}
+				}
 				n++
-				g := guardedBy(h, call.Block(), func(cd Cond) (bool, bool) {
-					if cd.X == nil || cd.Y == nil {
-						return false, false
-					}
-					rem, ok := stripConv(cd.X).(*ssa.BinOp)
-					if !ok || rem.Op != token.REM {
-						return false, false
-					}
-					k, isk := constInt(stripConv(rem.Y))
-					z, isz := constInt(stripConv(cd.Y))
-					if !isk || k != direntsz || !isz || z != 0 {
-						return false, false
-					}
-					if _, path := paramFieldPath(rem.X); path != "Cookie" {
-						if cv, ok := rem.X.(*ssa.Convert); !ok {
-							return false, false
-						} else if _, p2 := paramFieldPath(cv.X); p2 != "Cookie" {
+				mk := func(subj ssa.Value) func(Cond) (bool, bool) {
+					return func(cd Cond) (bool, bool) {
+						if cd.X == nil || cd.Y == nil {
 							return false, false
 						}
+						rem, ok := stripConv(cd.X).(*ssa.BinOp)
+						if !ok || rem.Op != token.REM {
+							return false, false
+						}
+						k, isk := constInt(stripConv(rem.Y))
+						z, isz := constInt(stripConv(cd.Y))
+						if !isk || k != direntsz || !isz || z != 0 {
+							return false, false
+						}
+						if !(stripConv(rem.X) == stripConv(subj) || sameParamField(rem.X, subj)) {
+							if cv, ok := rem.X.(*ssa.Convert); !ok || !(stripConv(cv.X) == stripConv(subj) || sameParamField(cv.X, subj)) {
+								return false, false
+							}
+						}
+						if cd.Op == token.NEQ {
+							return true, false
+						}
+						if cd.Op == token.EQL {
+							return true, true
+						}
+						return false, false
 					}
-					if cd.Op == token.NEQ {
-						return true, false
-					}
-					if cd.Op == token.EQL {
-						return true, true
-					}
-					return false, false
-				})
+				}
+				g := guardedByS(h, call.Block(), cookie, mk, 0)
 				R.Analysed[FuncName(h)] = true
 				R.Check(g, id, h.Name()+"|cookie entry-aligned", P.Pos(call.Pos()), "the scan starts only at a cookie that is a multiple of DIRENTSZ", "guard dominates", "a cookie such as 1 makes the scan decode bytes straddling two entries: the garbage name length panics the decoder with the directory lock held")
 			}
@@ -496,7 +503,7 @@ func ruleV3(c *Ctx, id string) {
 
 func ruleV4(c *Ctx, id string) {
 	V, P, R := c.V, c.P, c.R
-	R.Rule(id, "counts agree with the data supplied: every caller of inode.Write passes a count that is the length of the data, or a count tested against it, before the data is sliced by the count", 4)
+	R.Rule(id, "counts agree with the data supplied: every caller of inode.Write passes a count that is the length of the data, or a count tested against it, before the data is sliced by the count", 3)
 	w := V.InodeWrite
 	if w == nil {
 		return
@@ -553,11 +560,33 @@ func ruleV4(c *Ctx, id string) {
 		}
 		// constant count with data produced by an encoder of that size
 		if k, isk := constInt(stripConv(cnt)); isk && !ok {
-			if dc, isC := dat.(*ssa.Call); isC && dc.Call.StaticCallee() != nil {
-				_, capEnc, _ := codecOps(dc.Call.StaticCallee())
-				if capEnc == k {
-					ok, why = true, fmt.Sprintf("constant count %d and data from an encoder of exactly %d bytes", k, k)
+			// the data, seen through a private helper's parameter at each of its call sites
+			var fromEnc func(d ssa.Value, depth int) bool
+			fromEnc = func(d ssa.Value, depth int) bool {
+				d = stripConv(d)
+				if dc, isC := d.(*ssa.Call); isC && dc.Call.StaticCallee() != nil {
+					_, capEnc, _ := codecOps(dc.Call.StaticCallee())
+					return capEnc == k
 				}
+				pm, isP := d.(*ssa.Parameter)
+				if !isP || depth > 2 || !isPrivateHelper(pm.Parent()) || len(staticSites[pm.Parent()]) == 0 {
+					return false
+				}
+				for _, site := range staticSites[pm.Parent()] {
+					found := false
+					for i, q := range pm.Parent().Params {
+						if q == pm && i < len(site.Common().Args) {
+							found = fromEnc(site.Common().Args[i], depth+1)
+						}
+					}
+					if !found {
+						return false
+					}
+				}
+				return true
+			}
+			if fromEnc(dat, 0) {
+				ok, why = true, fmt.Sprintf("constant count %d and data from an encoder of exactly %d bytes", k, k)
 			}
 		}
 		if !ok {
@@ -785,8 +814,14 @@ func ruleV8(c *Ctx, id string) {
 						msg = constant.StringVal(cst.Value)
 					}
 				}
+				// a panic moved into a private single-caller helper keeps its owner's justification
 				key := FuncName(fn) + "|" + msg
 				why, ok := panicJustified[key]
+				if !ok && fn.Parent() == nil {
+					if w2, ok2 := panicJustified[FuncName(ownerOf(fn))+"|"+msg]; ok2 {
+						key, why, ok = FuncName(ownerOf(fn))+"|"+msg, w2, true
+					}
+				}
 				R.Check(ok, id, key, P.Pos(pn.Pos()), "an explicit panic reachable from a handler has a recorded invariant that excludes it", why, "new explicit panic reachable from a request handler: one request can kill the whole server process")
 			}
 		}
